@@ -1303,3 +1303,416 @@ Proof.
     destruct (Z.eqb_spec (var_len (h_dims h) y + zsum (map (var_len (h_dims h)) l) +
                           (var_len (h_dims h) x + 0)) (var_len (h_dims h) x)); [lia|reflexivity].
 Qed.
+
+(* ====================================================================== *)
+(** * 9. REDEFINITION: abstract core                                       *)
+(* ====================================================================== *)
+
+Lemma rsum_app : forall a b, rsum (a ++ b) = rsum a + rsum b.
+Proof.
+  induction a as [|[k len] a IH]; intros b; cbn [app rsum]; [lia|]. rewrite IH. destruct k; lia.
+Qed.
+
+Lemma rsum_nonneg : forall vs, Forall (fun p : bool * Z => 0 <= snd p) vs -> 0 <= rsum vs.
+Proof.
+  induction vs as [|[k len] r IH]; intros H; cbn [rsum]; [lia|].
+  inversion H as [|? ? Hp Hr]; subst. cbn [snd] in Hp. specialize (IH Hr). destruct k; lia.
+Qed.
+
+Lemma rsum_no_rec : forall t3 : tlist,
+  filter (fun t : bool * Z * Z => fst (fst t)) t3 = [] -> rsum (map fst t3) = 0.
+Proof.
+  induction t3 as [|[[k len] u] r IH]; intros H; [reflexivity|].
+  cbn [filter fst] in H. destruct k; [discriminate H|]. cbn [map fst rsum]. exact (IH H).
+Qed.
+
+Lemma rsum_ge_in : forall (t3 : tlist) t, wf_t3 t3 ->
+  In t (filter (fun t : bool * Z * Z => fst (fst t)) t3) -> snd (fst t) <= rsum (map fst t3).
+Proof.
+  induction t3 as [|[[k len] u] r IH]; intros t Hwf Hin; [destruct Hin|].
+  inversion Hwf as [|? ? Hp Hr]; subst. cbn [fst snd] in Hp.
+  pose proof (rsum_nonneg _ (proj1 (wf_t3_lens r Hr))) as Hnn.
+  cbn [filter fst] in Hin. cbn [map fst rsum]. destruct k.
+  - destruct Hin as [<-|Hin]; [cbn [fst snd]; lia|]. specialize (IH t Hr Hin). lia.
+  - exact (IH t Hr Hin).
+Qed.
+
+Lemma rs_rule_bounds : forall t3, wf_t3 t3 -> 0 <= rs_rule t3 <= rsum (map fst t3).
+Proof.
+  intros t3 Hwf. unfold rs_rule.
+  pose proof (rsum_nonneg _ (proj1 (wf_t3_lens t3 Hwf))) as Hnn.
+  destruct (last_opt (filter (fun t : bool * Z * Z => fst (fst t)) t3)) as [[[k ll] u]|] eqn:El;
+    [|lia].
+  assert (Hin : In (k, ll, u) t3).
+  { unfold last_opt in El.
+    destruct (rev (filter (fun t : bool * Z * Z => fst (fst t)) t3)) as [|y r] eqn:Er; [discriminate El|].
+    injection El as ->. assert (Hy : In (k, ll, u) (rev (filter (fun t : bool * Z * Z => fst (fst t)) t3)))
+      by (rewrite Er; left; reflexivity).
+    apply in_rev in Hy. apply filter_In in Hy. exact (proj1 Hy). }
+  unfold wf_t3 in Hwf. rewrite Forall_forall in Hwf. specialize (Hwf _ Hin). cbn [fst snd] in Hwf.
+  destruct (Z.eqb_spec (rsum (map fst t3)) ll); lia.
+Qed.
+
+(** the record size never shrinks when variables are appended *)
+Lemma rs_rule_mono : forall t3o ext3, wf_t3 (t3o ++ ext3) -> rs_rule t3o <= rs_rule (t3o ++ ext3).
+Proof.
+  intros t3o ext3 Hwf. destruct (proj1 (wf_t3_app _ _) Hwf) as [Hwo Hwe].
+  pose proof (rs_rule_bounds t3o Hwo) as Hbo.
+  unfold rs_rule at 2. rewrite map_app, rsum_app, filter_app.
+  destruct (snoc_cases_layout _ (filter (fun t : bool * Z * Z => fst (fst t)) ext3))
+    as [En|[l [x El]]].
+  - rewrite En, app_nil_r, (rsum_no_rec ext3 En), Z.add_0_r. unfold rs_rule. lia.
+  - rewrite El, app_assoc, last_opt_snoc. destruct x as [[k ll] u].
+    assert (Hin : In (k, ll, u) (filter (fun t : bool * Z * Z => fst (fst t)) ext3))
+      by (rewrite El; apply in_or_app; right; left; reflexivity).
+    pose proof (rsum_ge_in ext3 _ Hwe Hin) as Hge. cbn [fst snd] in Hge.
+    apply filter_In in Hin. destruct Hin as [Hin _].
+    unfold wf_t3 in Hwe. rewrite Forall_forall in Hwe. specialize (Hwe _ Hin). cbn [fst snd] in Hwe.
+    destruct (Z.eqb_spec (rsum (map fst t3o) + rsum (map fst ext3)) ll); lia.
+Qed.
+
+Section RedefCore.
+  Variables (t3o ext3 : tlist) (obl : list Z) (obv obr xsz bv1 br : Z).
+  Let vo := map fst t3o.
+  Let vs := map fst (t3o ++ ext3).
+  Let oldf := map fst (sel false vo obl).
+  Let oldr := map fst (sel true vo obl).
+  Let bl := assign vs oldf oldr bv1 br.
+  Let nbv := begin_var_of vs bl br.
+
+  Hypothesis Hwf : wf_t3 (t3o ++ ext3).
+  (* the old layout *)
+  Hypothesis Holen : length obl = length vo.
+  Hypothesis Hobi : begins_increasing obv (sel false vo obl) = true.
+  Hypothesis Hobv : obv = match sel false vo obl with (b, _) :: _ => b | [] => obr end.
+  Hypothesis Hoend : last_end obv (sel false vo obl) <= obr.
+  Hypothesis Hobr4 : obr mod 4 = 0.
+  Hypothesis Hoc : contig obr (sel true vo obl).
+  (* the new section starts *)
+  Hypothesis Hbv_x : xsz <= bv1.
+  Hypothesis Hbv_o : obv <= bv1.
+  Hypothesis Hbr_o : obr <= br.
+  Hypothesis Hbr_f : fend vs oldf bv1 <= br.
+  Hypothesis Hbr4 : br mod 4 = 0.
+
+  Lemma rc_vs : vs = vo ++ map fst ext3.
+  Proof. unfold vs, vo. apply map_app. Qed.
+
+  Lemma rc_inv : lay_inv (t3o ++ ext3) (mklayout xsz nbv br (rs_rule (t3o ++ ext3)) bl).
+  Proof.
+    apply (mk_lay_inv (t3o ++ ext3) xsz bv1 br oldf oldr); try assumption.
+    - unfold oldf. exact (bi_fst_mod4 _ _ Hobi).
+    - fold vs. rewrite rc_vs. unfold oldr. apply (rpairs_contig vo obl _ obr br Holen Hoc Hbr_o).
+  Qed.
+
+  Lemma rc_bl_len : length bl = length vs.
+  Proof. apply assign_length. Qed.
+
+  Lemma rc_nbv_ge : bv1 <= nbv /\ nbv <= br.
+  Proof.
+    destruct rc_inv as (_ & _ & Hbi & Hbv & Hle & _).
+    cbn [l_begins l_begin_var l_begin_rec] in *. fold vs in Hbi, Hbv, Hle.
+    unfold bl in Hbi, Hbv, Hle. rewrite sel_false_assign in *.
+    destruct (wf_t3_lens _ Hwf) as [Hnn _]. fold vs in Hnn.
+    pose proof (sel_lens_Forall (fun x => 0 <= x) false vs bl Hnn) as Hfa.
+    unfold bl in Hfa. rewrite sel_false_assign in Hfa.
+    pose proof (last_end_ge _ nbv Hfa Hbi) as Hge.
+    split; [|lia].
+    destruct (fpairs vs oldf bv1) as [|[b len] rest] eqn:Ep.
+    - pose proof (fpairs_nil_fend _ _ _ Ep). lia.
+    - pose proof (fpairs_head _ _ _ _ _ _ Ep) as Eb.
+      pose proof (fix_b_ok bv1 oldf (bi_fst_mod4 _ _ Hobi)). fold oldf in H. lia.
+  Qed.
+
+  Lemma rc_znth_vs : forall i, 0 <= i < Zlen vo -> znth vs i dvs = znth vo i dvs.
+  Proof. intros i Hi. rewrite rc_vs. apply znth_app_l. exact Hi. Qed.
+
+  Lemma rc_lens_nonneg : Forall (fun p : bool * Z => 0 <= snd p) vs /\
+                         Forall (fun p : bool * Z => 0 <= snd p) vo.
+  Proof.
+    destruct (wf_t3_lens _ Hwf) as [Hnn _]. fold vs in Hnn. split; [exact Hnn|].
+    rewrite rc_vs in Hnn. apply Forall_app in Hnn. exact (proj1 Hnn).
+  Qed.
+
+  (** old fixed variables: never move down, stay ordered and disjoint, inside their sections *)
+  Lemma rc_fixed : forall i, 0 <= i < Zlen vo -> fst (znth vo i dvs) = false ->
+    0 <= snd (znth vo i dvs) /\
+    znth obl i 0 <= znth bl i 0 /\
+    obv <= znth obl i 0 /\ znth obl i 0 + snd (znth vo i dvs) <= obr /\
+    nbv <= znth bl i 0 /\ znth bl i 0 + snd (znth vo i dvs) <= br.
+  Proof.
+    intros i Hi Hk. destruct rc_lens_nonneg as [Hnn Hnno].
+    destruct (bi_sel_index false vo obl obv Holen Hnno Hobi) as [Ho1 _].
+    destruct (Ho1 i Hi Hk) as (A & B & C).
+    destruct rc_inv as (_ & _ & Hbi & _ & Hle & _).
+    cbn [l_begins l_begin_var l_begin_rec] in *. fold vs in Hbi, Hle.
+    destruct (bi_sel_index false vs bl nbv rc_bl_len Hnn Hbi) as [Hn1 _].
+    assert (Hi' : 0 <= i < Zlen vs).
+    { rewrite rc_vs, Zlen_app. pose proof (Zlen_nonneg _ (map fst ext3)). lia. }
+    specialize (Hn1 i Hi'). rewrite (rc_znth_vs i Hi) in Hn1. destruct (Hn1 Hk) as (A' & B' & C').
+    split.
+    { rewrite Forall_forall in Hnno. apply Hnno. unfold Zlen in Hi.
+      clear -Hi. revert i Hi. induction vo as [|x l IH]; intros i Hi; cbn [length] in Hi; [lia|].
+      destruct (Z.eq_dec i 0) as [->|E]; [left; reflexivity|].
+      rewrite znth_cons_pos by exact E. right. apply IH. lia. }
+    split.
+    { unfold bl. rewrite rc_vs. apply assign_fixed_ge; assumption. }
+    repeat (split; [lia|]). lia.
+  Qed.
+
+  Lemma rc_fixed_order : forall i j, 0 <= i -> i < j -> j < Zlen vo ->
+    fst (znth vo i dvs) = false -> fst (znth vo j dvs) = false ->
+    znth obl i 0 + snd (znth vo i dvs) <= znth obl j 0 /\
+    znth bl i 0 + snd (znth vo i dvs) <= znth bl j 0.
+  Proof.
+    intros i j Hi Hij Hj Hki Hkj. destruct rc_lens_nonneg as [Hnn Hnno].
+    destruct (bi_sel_index false vo obl obv Holen Hnno Hobi) as [_ Ho2].
+    destruct rc_inv as (_ & _ & Hbi & _).
+    cbn [l_begins l_begin_var] in *. fold vs in Hbi.
+    destruct (bi_sel_index false vs bl nbv rc_bl_len Hnn Hbi) as [_ Hn2].
+    split; [apply Ho2; assumption|].
+    assert (Hj' : j < Zlen vs).
+    { rewrite rc_vs, Zlen_app. pose proof (Zlen_nonneg _ (map fst ext3)). lia. }
+    specialize (Hn2 i j Hi Hij Hj').
+    rewrite (rc_znth_vs i ltac:(lia)), (rc_znth_vs j ltac:(lia)) in Hn2. apply Hn2; assumption.
+  Qed.
+
+  (** old record variables keep their offset inside the record *)
+  Lemma rc_rec : forall i, 0 <= i < Zlen vo -> fst (znth vo i dvs) = true ->
+    znth obl i 0 = obr + roff vo i /\ znth bl i 0 = br + roff vo i /\
+    0 <= roff vo i /\ roff vo i + snd (znth vo i dvs) <= rsum vo.
+  Proof.
+    intros i Hi Hk. destruct rc_lens_nonneg as [Hnn Hnno].
+    destruct rc_inv as (_ & _ & _ & _ & _ & _ & Hc & _). cbn [l_begins l_begin_rec] in Hc. fold vs in Hc.
+    assert (Hi' : 0 <= i < Zlen vs).
+    { rewrite rc_vs, Zlen_app. pose proof (Zlen_nonneg _ (map fst ext3)). lia. }
+    pose proof (contig_sel_index vo obl obr Holen Hoc i Hi Hk) as E1.
+    pose proof (contig_sel_index vs bl br rc_bl_len Hc i Hi') as E2.
+    rewrite (rc_znth_vs i Hi) in E2. specialize (E2 Hk).
+    rewrite rc_vs, roff_app_l in E2 by lia.
+    destruct (roff_bounds vo i Hnno Hi) as [B1 B2].
+    split; [exact E1|]. split; [exact E2|]. split; [exact B1|exact (B2 Hk)].
+  Qed.
+
+  (** if begin_var does not grow, no old fixed variable moves *)
+  Lemma rc_fixed_same : nbv <= obv ->
+    forall i, 0 <= i < Zlen vo -> fst (znth vo i dvs) = false -> znth bl i 0 = znth obl i 0.
+  Proof.
+    intros Hle i Hi Hk. destruct rc_nbv_ge as [Hge _].
+    unfold bl. rewrite rc_vs. apply assign_fixed_same; try assumption.
+    apply (bi_weaken _ obv); [lia|exact Hobi].
+  Qed.
+End RedefCore.
+
+(* ====================================================================== *)
+(** * 10. REDEFINITION: headers                                            *)
+(* ====================================================================== *)
+
+(** the new header extends the old one: the old variables are the first variables of the new
+    header, with the same kinds (fixed/record), the same lens and the same unpadded sizes;
+    new variables are appended *)
+Definition hdr_extends (oh h : hdr) : Prop := exists ext3, t3of h = t3of oh ++ ext3.
+
+(* what ncmpio__enddef hands to NC_begins after a redef: the saved old header's layout and
+   variable kinds *)
+Definition redef_old (oh : hdr) (ol : layout) : option (layout * list bool) :=
+  Some (ol, map (is_recvar (h_dims oh)) (h_vars oh)).
+
+Lemma recs_vo : forall oh, map (is_recvar (h_dims oh)) (h_vars oh) = map fst (map fst (t3of oh)).
+Proof. intros oh. unfold t3of. rewrite !map_map. reflexivity. Qed.
+
+Lemma Zlen_t3of : forall h, Zlen (map fst (t3of h)) = Zlen (h_vars h).
+Proof. intros h. unfold t3of. rewrite !Zlen_map. reflexivity. Qed.
+
+Definition rd_bl (oh : hdr) (ol : layout) (ext3 : tlist) (bv1 br : Z) : list Z :=
+  assign (map fst (t3of oh ++ ext3))
+         (map fst (sel false (map fst (t3of oh)) (l_begins ol)))
+         (map fst (sel true (map fst (t3of oh)) (l_begins ol))) bv1 br.
+
+Lemma redef_setup : forall oh ol h ext3 hm vm ha ra,
+  hdr_wf h -> 0 <= hm -> 0 <= vm -> 0 < ha -> 4 <= ra -> ra mod 4 = 0 ->
+  lay_inv (t3of oh) ol -> t3of h = t3of oh ++ ext3 ->
+  let old := redef_old oh ol in
+  let bv1 := bv1_of h hm ha old in
+  let br := begin_rec_of h hm vm ha ra old (l_begin_rec ol) in
+  let bl := rd_bl oh ol ext3 bv1 br in
+  layout_of_begins h hm vm ha ra old (l_begin_rec ol) =
+    mklayout (hdr_len h) (begin_var_of (map fst (t3of oh ++ ext3)) bl br) br
+             (rs_rule (t3of oh ++ ext3)) bl /\
+  wf_t3 (t3of oh ++ ext3) /\
+  hdr_len h <= bv1 /\ l_begin_var ol <= bv1 /\ l_begin_rec ol <= br /\
+  fend (map fst (t3of oh ++ ext3))
+       (map fst (sel false (map fst (t3of oh)) (l_begins ol))) bv1 <= br /\
+  br mod 4 = 0.
+Proof.
+  intros oh ol h ext3 hm vm ha ra Hwf Hhm Hvm Hha Hra Hra4 Hinv Hext old bv1 br bl.
+  destruct Hinv as (Holen & Hox & Hobi & Hobv & Hoend & Hobr4 & Hoc & Hors).
+  assert (Eof : old_fixed_of old = map fst (sel false (map fst (t3of oh)) (l_begins ol))).
+  { unfold old, redef_old, old_fixed_of. rewrite recs_vo. apply old_fixed_sel. }
+  assert (Eor : old_rec_of old = map fst (sel true (map fst (t3of oh)) (l_begins ol))).
+  { unfold old, redef_old, old_rec_of. rewrite recs_vo. apply old_rec_sel. }
+  assert (Evs : vsof h = map fst (t3of oh ++ ext3)) by (rewrite vsof_t3of, Hext; reflexivity).
+  split.
+  { unfold layout_of_begins. fold old. fold br. fold bv1.
+    rewrite Eof, Eor, Evs, recsize_of_rule, Hext. reflexivity. }
+  split. { rewrite <- Hext. apply wf_t3of. exact Hwf. }
+  assert (Hbv0 : hdr_len h <= match h_vars h with [] => hdr_len h
+                                | _ :: _ => rndup (hdr_len h + hm) ha end).
+  { destruct (h_vars h); [lia|]. destruct (rndup_pos (hdr_len h + hm) ha Hha). lia. }
+  assert (Ebv : bv1 = Z.max (match h_vars h with [] => hdr_len h
+                                | _ :: _ => rndup (hdr_len h + hm) ha end) (l_begin_var ol))
+    by reflexivity.
+  split; [lia|]. split; [lia|].
+  set (fe := fend (map fst (t3of oh ++ ext3))
+                  (map fst (sel false (map fst (t3of oh)) (l_begins ol))) bv1).
+  assert (Ebr : br = Z.max (rndup (rndup (Z.max (l_begin_rec ol) (fe + vm)) 4) ra) (l_begin_rec ol)).
+  { unfold br, begin_rec_of, end_fixed_of, br3_of. fold old. fold bv1. rewrite Eof, Evs. fold fe.
+    replace (ra >? 1) with true by lia. reflexivity. }
+  pose proof (rndup4_bounds (Z.max (l_begin_rec ol) (fe + vm))) as H1.
+  destruct (rndup_pos (rndup (Z.max (l_begin_rec ol) (fe + vm)) 4) ra ltac:(lia)) as [H2 _].
+  pose proof (rndup_mult4 (rndup (Z.max (l_begin_rec ol) (fe + vm)) 4) ra ltac:(lia) Hra4) as H3.
+  split; [lia|]. split; [lia|].
+  rewrite Ebr.
+  destruct (Z.max_spec (rndup (rndup (Z.max (l_begin_rec ol) (fe + vm)) 4) ra) (l_begin_rec ol))
+    as [[_ ->]|[_ ->]]; assumption.
+Qed.
+
+Section Redef.
+  Variables (oh h : hdr) (ol lay : layout) (hm vm ha ra : Z).
+  Hypothesis Hwf : hdr_wf h.
+  Hypothesis Hhm : 0 <= hm.
+  Hypothesis Hvm : 0 <= vm.
+  Hypothesis Hha : 0 < ha.
+  Hypothesis Hra : 4 <= ra.
+  Hypothesis Hra4 : ra mod 4 = 0.
+  Hypothesis Hinv : lay_inv (t3of oh) ol.
+  Hypothesis Hext : hdr_extends oh h.
+  Hypothesis Hbeg : begins h hm vm ha ra (redef_old oh ol) (l_begin_rec ol) = Some lay.
+
+  (** Deliverable 2a: the invariant is preserved by a redefinition, hence holds after every
+      history create; enddef; (redef; enddef)^n *)
+  Theorem begins_lay_inv_redef : lay_inv (t3of h) lay.
+  Proof.
+    destruct Hext as [ext3 He]. apply begins_some in Hbeg. destruct Hbeg as [-> _].
+    destruct (redef_setup oh ol h ext3 hm vm ha ra Hwf Hhm Hvm Hha Hra Hra4 Hinv He)
+      as (El & Hw & B1 & B2 & B3 & B4 & B5).
+    destruct Hinv as (Holen & Hox & Hobi & Hobv & Hoend & Hobr4 & Hoc & Hors).
+    rewrite El, He. unfold rd_bl.
+    apply (rc_inv (t3of oh) ext3 (l_begins ol) (l_begin_var ol) (l_begin_rec ol)); assumption.
+  Qed.
+
+  (** Deliverable 2b: layout_ok after a redefinition *)
+  Theorem begins_layout_ok_redef :
+    layout_ok (set_begins h (l_begins lay)) (l_xsz lay) = true /\
+    l_xsz lay = hdr_len h /\ Zlen (l_begins lay) = Zlen (h_vars h) /\
+    l_recsize lay = recsize_of h.
+  Proof.
+    pose proof begins_lay_inv_redef as Hi.
+    split; [apply lay_inv_layout_ok; [apply wf_t3of; exact Hwf|exact Hi]|].
+    destruct Hi as (Hl & _ & _ & _ & _ & _ & _ & Hrs).
+    apply begins_some in Hbeg. destruct Hbeg as [E _].
+    split; [rewrite E; reflexivity|].
+    split; [rewrite !length_Zlen, Hl, <- !length_Zlen; apply Zlen_t3of|].
+    rewrite Hrs. symmetry. apply recsize_of_rule.
+  Qed.
+
+  (** Deliverable 2c: nothing ever moves towards the beginning of the file *)
+  Theorem begins_monotone :
+    (forall i, 0 <= i < Zlen (h_vars oh) ->
+       znth (l_begins ol) i 0 <= znth (l_begins lay) i 0) /\
+    l_begin_var ol <= l_begin_var lay /\
+    l_begin_rec ol <= l_begin_rec lay /\
+    l_recsize ol <= l_recsize lay /\ 0 <= l_recsize ol.
+  Proof.
+    destruct Hext as [ext3 He]. apply begins_some in Hbeg. destruct Hbeg as [-> _].
+    destruct (redef_setup oh ol h ext3 hm vm ha ra Hwf Hhm Hvm Hha Hra Hra4 Hinv He)
+      as (El & Hw & B1 & B2 & B3 & B4 & B5).
+    destruct Hinv as (Holen & Hox & Hobi & Hobv & Hoend & Hobr4 & Hoc & Hors).
+    rewrite El. cbn [l_begins l_begin_var l_begin_rec l_recsize]. unfold rd_bl.
+    split; [|split; [|split; [|split]]].
+    - intros i Hi. rewrite <- Zlen_t3of in Hi.
+      destruct (fst (znth (map fst (t3of oh)) i dvs)) eqn:Ek.
+      + destruct (rc_rec (t3of oh) ext3 (l_begins ol) (l_begin_var ol) (l_begin_rec ol)
+                    (hdr_len h) _ _ Hw Holen Hobi Hoc B1 B3 B4 B5 i Hi Ek) as (E1 & E2 & _).
+        rewrite E1, E2. lia.
+      + destruct (rc_fixed (t3of oh) ext3 (l_begins ol) (l_begin_var ol) (l_begin_rec ol)
+                    (hdr_len h) _ _ Hw Holen Hobi Hoend Hoc B1 B3 B4 B5 i Hi Ek) as (_ & E & _).
+        exact E.
+    - pose proof (rc_nbv_ge (t3of oh) ext3 (l_begins ol) (l_begin_var ol) (l_begin_rec ol)
+                    (hdr_len h) _ _ Hw Holen Hobi Hoc B1 B3 B4 B5). lia.
+    - exact B3.
+    - rewrite Hors. apply rs_rule_mono. exact Hw.
+    - rewrite Hors. apply rs_rule_bounds. exact (proj1 (proj1 (wf_t3_app _ _) Hw)).
+  Qed.
+
+  (** the index-level facts the data mover needs (Proofs_Redef.v); old variable i is
+      variable i of both headers, kind and len read from the old header *)
+  Theorem begins_redef_facts :
+    let vo := vsof oh in
+    let ob := fun i => znth (l_begins ol) i 0 in
+    let nb := fun i => znth (l_begins lay) i 0 in
+    let kind := fun i => fst (znth vo i dvs) in
+    let len := fun i => snd (znth vo i dvs) in
+    (* the first variables of the new header are the old ones *)
+    (forall i, 0 <= i < Zlen (h_vars oh) -> znth (vsof h) i dvs = znth vo i dvs) /\
+    Zlen (h_vars oh) <= Zlen (h_vars h) /\
+    (* fixed variables *)
+    (forall i, 0 <= i < Zlen (h_vars oh) -> kind i = false ->
+       0 <= len i /\ ob i <= nb i /\
+       l_begin_var ol <= ob i /\ ob i + len i <= l_begin_rec ol /\
+       l_begin_var lay <= nb i /\ nb i + len i <= l_begin_rec lay) /\
+    (forall i j, 0 <= i -> i < j -> j < Zlen (h_vars oh) -> kind i = false -> kind j = false ->
+       ob i + len i <= ob j /\ nb i + len i <= nb j) /\
+    (* record variables: same offset inside the record before and after *)
+    (forall i, 0 <= i < Zlen (h_vars oh) -> kind i = true ->
+       ob i = l_begin_rec ol + roff vo i /\ nb i = l_begin_rec lay + roff vo i /\
+       0 <= roff vo i /\ roff vo i + len i <= rsum vo) /\
+    (* sections *)
+    hdr_len h <= l_begin_var lay /\ l_begin_var lay <= l_begin_rec lay /\
+    l_begin_var ol <= l_begin_var lay /\ l_begin_rec ol <= l_begin_rec lay /\
+    0 <= l_recsize ol /\ l_recsize ol <= l_recsize lay /\ l_recsize ol <= rsum vo /\
+    (* if begin_var does not grow, no old fixed variable moves *)
+    (l_begin_var lay <= l_begin_var ol ->
+       forall i, 0 <= i < Zlen (h_vars oh) -> kind i = false -> nb i = ob i).
+  Proof.
+    intros vo ob nb kind len. unfold ob, nb, kind, len, vo. clear ob nb kind len vo.
+    pose proof begins_monotone as (M1 & M2 & M3 & M4 & M5).
+    destruct Hext as [ext3 He]. apply begins_some in Hbeg. destruct Hbeg as [-> _].
+    destruct (redef_setup oh ol h ext3 hm vm ha ra Hwf Hhm Hvm Hha Hra Hra4 Hinv He)
+      as (El & Hw & B1 & B2 & B3 & B4 & B5).
+    destruct Hinv as (Holen & Hox & Hobi & Hobv & Hoend & Hobr4 & Hoc & Hors).
+    rewrite El in M1, M2, M3, M4 |- *.
+    cbn [l_begins l_begin_var l_begin_rec l_recsize] in M1, M2, M3, M4 |- *.
+    unfold rd_bl in M1, M2, M3, M4 |- *.
+    assert (Evs : vsof h = map fst (t3of oh) ++ map fst ext3)
+      by (rewrite vsof_t3of, He; apply map_app).
+    assert (Eno : Zlen (h_vars oh) = Zlen (map fst (t3of oh))) by (symmetry; apply Zlen_t3of).
+    assert (Enn : Zlen (h_vars h) = Zlen (map fst (t3of oh)) + Zlen (map fst ext3)).
+    { rewrite <- Zlen_t3of, He, map_app. apply Zlen_app. }
+    rewrite Evs, (vsof_t3of oh), Eno, Enn.
+    pose proof (Zlen_nonneg _ (map fst ext3)) as Hen.
+    pose proof (rc_nbv_ge (t3of oh) ext3 (l_begins ol) (l_begin_var ol) (l_begin_rec ol)
+                  (hdr_len h) _ _ Hw Holen Hobi Hoc B1 B3 B4 B5) as Hnbv.
+    split; [intros i Hi; apply znth_app_l; exact Hi|].
+    split; [lia|].
+    split.
+    { intros i Hi Hk.
+      exact (rc_fixed (t3of oh) ext3 (l_begins ol) (l_begin_var ol) (l_begin_rec ol)
+               (hdr_len h) _ _ Hw Holen Hobi Hoend Hoc B1 B3 B4 B5 i Hi Hk). }
+    split.
+    { intros i j Hi Hij Hj Hki Hkj.
+      exact (rc_fixed_order (t3of oh) ext3 (l_begins ol) (l_begin_var ol) (l_begin_rec ol)
+               (hdr_len h) _ _ Hw Holen Hobi Hoc B1 B3 B4 B5 i j Hi Hij Hj Hki Hkj). }
+    split.
+    { intros i Hi Hk.
+      exact (rc_rec (t3of oh) ext3 (l_begins ol) (l_begin_var ol) (l_begin_rec ol)
+               (hdr_len h) _ _ Hw Holen Hobi Hoc B1 B3 B4 B5 i Hi Hk). }
+    split; [lia|]. split; [lia|]. split; [exact M2|]. split; [exact M3|].
+    split; [exact M5|]. split; [exact M4|].
+    split.
+    { rewrite Hors. apply rs_rule_bounds. exact (proj1 (proj1 (wf_t3_app _ _) Hw)). }
+    intros Hle i Hi Hk.
+    exact (rc_fixed_same (t3of oh) ext3 (l_begins ol) (l_begin_var ol) (l_begin_rec ol)
+             (hdr_len h) _ _ Hw Holen Hobi Hoc B1 B3 B4 B5 Hle i Hi Hk).
+  Qed.
+End Redef.
